@@ -30,8 +30,11 @@ RULE = ("(writers) meshes with V in {0,1,3,4,8} vertices x M in {0,1,2,4,12} "
         "3 (thorough) and <= 7 over 5 letters: result must be the mesh the "
         "layout defines or InvalidMeshDataError; (affine) tetrahedron and "
         "cube x 48 signed permutations x scales {1,-1,2,1e-6} + shears + "
-        "near-singular/singular matrices x translations; (scripts) GIFTI "
-        "conversion x transforms x mesh-dir options, fragment-link tables. "
+        "near-singular/singular matrices x translations x input arrays "
+        "{float32, float64, integer, read-only views}, each transformed "
+        "twice (the first result must not change); (scripts) GIFTI "
+        "conversion x transforms x mesh-dir options, fragment-link tables "
+        "incl. 64-bit labels around 2^53 and 2^64-1. "
         "Non-trivial: M >= 1, or the byte string is not a valid mesh, or "
         "the matrix is not the identity.")
 ASSUMPTIONS = [
@@ -289,7 +292,10 @@ def _parity(row, orig):
     return 1 if inv % 2 == 0 else -1
 
 
-def _eval_affine(col, meshname, name, m, trans, rows):
+INPUT_KINDS = ("float32", "float64", "int32", "readonly")
+
+
+def _eval_affine(col, meshname, name, m, trans, rows, inp="float32"):
     from neuroglancer_scripts import mesh
     v, t = tetra() if meshname == "tetra" else cube()
     full = np.zeros((rows, 4))
@@ -299,11 +305,35 @@ def _eval_affine(col, meshname, name, m, trans, rows):
         full[3, 3] = 1
     case = {"kind": "affine", "mesh": meshname, "matrix": full.tolist(),
             "matrix_kind": name}
+    if inp != "float32":
+        case["input"] = inp
     va = np.array(v, dtype=np.float32)
     ta = np.array(t, dtype=np.uint32)
+    if inp == "float64":
+        va = va.astype(np.float64)
+    elif inp == "int32":
+        va = va.astype(np.int32)          # vertex coordinates are integers
+    elif inp == "readonly":
+        # what read_precomputed_mesh hands out: views of a bytes object
+        va = np.frombuffer(va.tobytes(), dtype=np.float32).reshape(va.shape)
+        ta = np.frombuffer(ta.tobytes(), dtype=np.uint32).reshape(ta.shape)
     nontriv = 0 if (np.array_equal(m, np.eye(3)) and not any(trans)) else 1
     try:
-        rv, rt = mesh.affine_transform_mesh(va.copy(), ta.copy(), full)
+        vin = va if inp == "readonly" else va.copy()
+        tin = ta if inp == "readonly" else ta.copy()
+        rv, rt = mesh.affine_transform_mesh(vin, tin, full)
+        first = (np.array(rv, copy=True), np.array(rt, copy=True))
+        # a later call (another transform of the same loaded mesh) must not
+        # change the arrays returned by this one
+        full2 = np.array(full, copy=True)
+        full2[:3, 3] += 1.0
+        mesh.affine_transform_mesh(vin, tin, full2)
+        if not (np.array_equal(np.asarray(rv), first[0])
+                and np.array_equal(np.asarray(rt), first[1])):
+            col.violation("C17/affine/earlier-result-changed-by-a-later-call",
+                          case, "returned arrays stay as returned",
+                          "changed after transforming the same mesh again")
+            rv, rt = first
     except Exception as exc:
         col.ev(1, nontriv, "affine-exception")
         col.violation("C17/affine/exception/" + type(exc).__name__, case,
@@ -518,6 +548,10 @@ def links_cases():
         [(7, ["a", "b", "c"]), (2 ** 32, ["b"]), (0, [])],
         [(1, ["a"]), (2, ["a"]), (3, ["missing"])],
         [(10, ["x y", "b"]), (11, ["c"])],
+        # 64-bit labels: neighbours that collapse when rounded to a double
+        [(2 ** 53, ["a"]), (2 ** 53 + 1, ["b"]), (2 ** 64 - 1, ["c"]),
+         (2 ** 63 + 1, ["a", "b"])],
+        [(10 ** 15 + 1, ["a"]), (1, ["b"]), (1 << 40, ["c"])],
     ]
     out = []
     for t in tables:
@@ -592,6 +626,8 @@ def run_unit(u):
                 for trans in ((0, 0, 0), (10, -20, 5.5), (-0.01, 0, 1e3)):
                     for rows in (3, 4):
                         _eval_affine(col, meshname, name, m, trans, rows)
+                    for inp in INPUT_KINDS[1:]:
+                        _eval_affine(col, meshname, name, m, trans, 4, inp)
         col.sample({"kind": "affine", "mesh": "cube",
                     "matrix_kind": "shear-mirror"})
     elif k == "gifti":
@@ -616,7 +652,8 @@ def replay(case):
     elif k == "affine":
         full = np.array(case["matrix"], dtype=float)
         _eval_affine(col, case["mesh"], case["matrix_kind"], full[:3, :3],
-                     tuple(full[:3, 3]), full.shape[0])
+                     tuple(full[:3, 3]), full.shape[0],
+                     case.get("input", "float32"))
     elif k == "gifti":
         _eval_gifti(col, case)
     elif k == "links":
